@@ -174,10 +174,25 @@ def _guard(fn, it):
 def main(prop, run, level='exploration', **floors):
     import argparse
     ap = argparse.ArgumentParser(); ap.add_argument('--tier', default=os.environ.get('VERIF_TIER', 'quick')); ap.add_argument('--replay'); ap.add_argument('--seed', type=int, default=int(os.environ.get('VERIF_SEED', '1')))
-    a = ap.parse_args(); ctx = Ctx(prop, a.tier, a.seed, level); ctx.replay = a.replay
+    a = ap.parse_args()
+    want_key = None
+    if a.replay:
+        # generic replay: show the witness, then re-run the check with the recorded tier and seed (evidence of this run goes to a scratch
+        # directory); exit 1 if the recorded key is reproduced.  Deterministic workloads reproduce exactly; thread schedules are re-sampled.
+        try: rec = json.load(open(a.replay))
+        except Exception as e: print(f'[{prop}] cannot read replay file: {e}'); sys.exit(2)
+        print(f"[{prop}] replay of {rec.get('key')}\n  what: {rec.get('what')}\n  recorded with tier={rec.get('tier')} seed={rec.get('seed')}")
+        print('  witness: ' + json.dumps(rec.get('witness'), default=str)[:3000])
+        a.tier = rec.get('tier') or a.tier; a.seed = rec.get('seed') if isinstance(rec.get('seed'), int) else a.seed; want_key = rec.get('key')
+        os.environ.setdefault('VERIF_EVIDENCE_DIR', os.path.join(SCRATCH_ROOT, f'verif-replay-evidence-{os.getpid()}'))
+    ctx = Ctx(prop, a.tier, a.seed, level); ctx.replay = a.replay
     try: run(ctx)
     except Inconclusive as e:
         print(f'[{prop}] INCONCLUSIVE (harness): {e}'); shutil.rmtree(ctx.scratch, ignore_errors=True); sys.exit(2)
     except Exception:
         traceback.print_exc(); print(f'[{prop}] INCONCLUSIVE (harness exception)'); shutil.rmtree(ctx.scratch, ignore_errors=True); sys.exit(2)
+    if want_key is not None:
+        seen = want_key in ctx.viol or want_key in ctx.known
+        rc = ctx.finish(**floors); shutil.rmtree(os.environ.get('VERIF_EVIDENCE_DIR', '/nonexistent'), ignore_errors=True)
+        print(f'[{prop}] replay: recorded key ' + ('REPRODUCED' if seen else 'not reproduced in this re-run')); sys.exit(1 if seen else (rc if rc == 2 else 0))
     sys.exit(ctx.finish(**floors))
